@@ -54,6 +54,7 @@ var harnesses = map[string]*harnessConfig{
 			"internal/verifsim/ref/refreport=sim/ref/refreport",
 			"internal/verifsim/mgen=sim/mgen",
 			"cmd/gotelemetry=sim/harness/h2",
+			"cmd/gotelemetry/internal/view=sim/shims/view",
 			"internal/configstore=sim/shims/configstore",
 			"internal/counter=sim/shims/counter"),
 	},
@@ -261,11 +262,12 @@ var props = map[string]*propConfig{
 		Harness: "h3", Level: "exploration",
 		Families: []family{
 			{Name: "uploader-vs-server", Flags: map[string]string{"family": "server"}, Quick: 2400, Thorough: 300000},
+			{Name: "viewer", Harness: "h2", Flags: map[string]string{"family": "viewer"}, Quick: 2400, Thorough: 300000},
 		},
 		QuickBudget: 100 * time.Second, ThoroughBudget: 20 * time.Minute, Chunk: 50,
 		Rule:        "one run = a generated upload configuration, 2..6 counter files (several programs, versions, Go versions, platforms incl. unlisted ones, near-miss counter and stack names), one real upload.Run whose every request is delivered by the simulated transport to the real upload handler configured with the same configuration (must answer 200); then each produced body is re-delivered six times with one field changed to a near-miss (program, version, Go version, GOOS, GOARCH, counter, stack first line): the handler must answer 4xx exactly when the reference semantics put the changed report outside the configuration",
 		Real:        []string{"internal/upload (uploader filter)", "godev/cmd/telemetrygodev validate/handleUpload + middleware", "internal/config"},
-		Stub:        []string{"transport simulated (no socket)", "configstore.Download stub", "counter files from the independent encoder", "local viewer side: see the viewer family when claimed"},
+		Stub:        []string{"transport simulated (no socket)", "configstore.Download stub", "counter files from the independent encoder", "viewer family: the viewer's newCounterFile/summary are evaluated on generated files and configurations and compared with the same reference semantics (active flags per metadata item, counter and stack; summary text)"},
 		Assumptions: []string{"refcfg is the documented semantics"},
 		Probes:      []string{"uploader-bodies"},
 	},
